@@ -36,8 +36,12 @@ ASSUMPTIONS = ["digits in numeric positions are ASCII; ids, counts and multiplic
                "without sign or underscore (int() and \\d accept more than the model's reader)",
                "write(path) first assigns basename(path) to an empty file_name; the harness applies the same assignment "
                "(\"f.cat\") to the instance it hands to the model",
-               "generated names and metadata contain no line-boundary character, no leading/trailing whitespace and "
-               "no lone surrogate (the quantifier's single-line text)"]
+               "generated names and metadata contain no leading/trailing whitespace, no lone surrogate and no line "
+               "boundary, except: ~150 quick / 2500 thorough instances carry one of the eight splitlines-only boundaries "
+               "(\\x0b \\x0c \\x1c \\x1d \\x1e \\x85 U+2028 U+2029) strictly inside a value; these are single-line for a "
+               "file reader only and are checked through the FILE entry points only (parse_file, CategoricalInstance(path), "
+               "get_parsed_instance; theorems C08_roundtrip_file / C08_sorted_idempotent_file under wf_cat_rl) - "
+               "parse_str is not claimed for them"]
 TIMEOUT_S = 60.0
 COVER_FILES = ["instances/preflibinstance/categorical.py", "instances/preflibinstance/instance.py"]
 CHUNK = 25
@@ -91,7 +95,8 @@ def normalise_fname(p):
 def entry_of(mode):
     """mode bits: 1 = parse_str instead of parse_file; 2 = categories_name keyed by str (as from_ordinal leaves it);
     4 = parse_lines on a caller-owned list that is poisoned afterwards; 8 = (histories) recompute_cardinality_param()
-    between the change and the second write"""
+    between the change and the second write; 16 = CategoricalInstance(path) (the constructor parses the file);
+    32 = get_parsed_instance(path); 64 = write() to a path that already holds a LONGER file"""
     return 1 if mode & 4 else mode & 1
 
 
@@ -107,6 +112,14 @@ def build(p, strkeys=False):
     inst.preferences = [tuple(tuple(c) for c in b) for b in p[7]]
     inst.multiplicity = {tuple(tuple(c) for c in b): m for b, m in p[8]}
     return inst
+
+
+INNER_BREAKS = "\x0b\x0c\x1c\x1d\x1e\x85\u2028\u2029"
+
+
+def has_inner_break(p):
+    vals = list(p[0]) + [n for _, n in p[3]] + [n for _, n in p[6]]
+    return any(ord(ch) in v for v in vals for ch in INNER_BREAKS)
 
 
 def _int(x):
@@ -174,10 +187,24 @@ def _parse(d, name, s, mode, autocorrect=False, header_only=False):
     elif mode & 1 == 0:
         path = os.path.join(d, name)
         _write_raw(path, s)
-        inst.parse_file(path, autocorrect=autocorrect, header_only=header_only)
+        if mode & 16 and not autocorrect and not header_only:
+            inst = CategoricalInstance(path)
+        elif mode & 32:
+            from preflibtools.instances import get_parsed_instance
+            inst = get_parsed_instance(path, autocorrect=autocorrect, header_only=header_only)
+        else:
+            inst.parse_file(path, autocorrect=autocorrect, header_only=header_only)
     else:
         inst.parse_str(s, "cat", file_name=name, autocorrect=autocorrect, header_only=header_only)
     return inst
+
+
+OLD_TAIL = "7: {1, 2}, {}, 3\n" * 4000          # a longer file already at the destination of write()
+
+
+def _occupy(path, mode):
+    if mode & 64:
+        _write_raw(path, OLD_TAIL)
 
 
 def _parse_canon(d, name, s, mode, **kw):
@@ -197,6 +224,7 @@ def _rt_tail(d, out, text1, mode, mw=None):
     os.makedirs(os.path.join(d, "out"))
     path2 = os.path.join(d, "out", "f.cat")
     before = snapshot(j)
+    _occupy(path2, mode)
     j.write(path2)
     out["text2"] = T(_read(path2))
     out.setdefault("purity", None)
@@ -241,6 +269,7 @@ def _impl_hist(d, pl):
     inst = build(p, strkeys=bool(mode & 2))
     path = os.path.join(d, "f.cat")
     before = snapshot(inst)
+    _occupy(path, mode)
     inst.write(path)
     out = {"write": [0], "textA": T(_read(path)), "purity": snap_diff(before, snapshot(inst))}
     keys = [_tup(b) for b, _ in p[8]]
@@ -292,6 +321,7 @@ def _impl_cycle(d, pl):
     out = {"A": T(text_a), "S0": canon(obj)}
     os.makedirs(os.path.join(d, "b"))
     path_b = os.path.join(d, "b", "f.cat")
+    _occupy(path_b, mode)
     obj.write(path_b)
     text_b = _read(path_b)
     out["B"] = T(text_b)
@@ -327,6 +357,7 @@ def _impl_seq(d, pl, mw):
         outcome = "built"
     path = os.path.join(d, "f.cat")
     before = snapshot(inst)
+    _occupy(path, mode)
     inst.write(path)
     out = {"write": [0], "prelude": outcome, "purity": snap_diff(before, snapshot(inst))}
     return _rt_tail(d, out, _read(path), mode, mw)
@@ -354,6 +385,7 @@ def impl(c):
         inst = build(p, strkeys=bool(mode & 2))
         path = os.path.join(d, "f.cat")
         before = snapshot(inst)
+        _occupy(path, mode)
         r = guarded(inst.write, path)
         if r[0] != 0:
             return {"write": r}
@@ -580,6 +612,14 @@ def stats(c, r, m):
         kinds.add("str category keys")
     if pl[1] & 4:
         kinds.add("parse_lines on a list poisoned afterwards")
+    if pl[1] & 16:
+        kinds.add("read back by CategoricalInstance(path)")
+    if pl[1] & 32:
+        kinds.add("read back by get_parsed_instance(path)")
+    if pl[1] & 64:
+        kinds.add("written over a longer existing file")
+    if has_inner_break(pl[0]):
+        kinds.add("value with a splitlines-only boundary inside (file entry points only)")
     if pl[0][5] >= 10:
         kinds.add(">= 10 categories")
     if any(("  " in proto.untext(n) or "\t" in proto.untext(n) or "\u00a0" in proto.untext(n))
@@ -612,7 +652,9 @@ def describe(c):
         dd = describe({"op": "c08.rt", "payload": [p, pl[3]], "tags": {}})
         dd["then"] = {"multiplicity[ballot #i] += k (and num_voters += k)": pl[1], "append ballot": pl[2]}
         return dd
-    return {"entry": "parse_lines (list poisoned afterwards)" if pl[1] & 4 else "parse_str" if pl[1] & 1 else "parse_file",
+    return {"entry": "parse_lines (list poisoned afterwards)" if pl[1] & 4 else "parse_str" if pl[1] & 1 else
+            "CategoricalInstance(path)" if pl[1] & 16 else "get_parsed_instance" if pl[1] & 32 else "parse_file",
+            "written over a longer existing file": bool(pl[1] & 64),
             "categories_name keyed by str": bool(pl[1] & 2), "kind": op,
             "metadata": {f: proto.untext(v) for f, v in zip(FIELDS, p[0])},
             "num_alternatives": p[1], "num_voters": p[2], "num_unique_preferences": p[4], "num_categories": p[5],
@@ -703,6 +745,30 @@ def rand_name(rng):
     if r < 0.45:
         return rng.choice(WS_VALUES)
     return rand_text(rng, 10)
+
+
+def inner_break_text(rng):
+    """single line for a FILE reader: one of the eight splitlines-only boundaries strictly inside"""
+    a = rng.choice(["a", "x1", "Title", "1", ":", "é", "A  B"])
+    b = rng.choice(["b", "9", "z}", "end", "B\tC"])
+    mid = "".join(rng.choice(INNER_BREAKS) for _ in range(rng.randint(1, 2)))
+    return a + rng.choice(["", " ", "m"]) + mid + rng.choice(["", " ", "n"]) + b
+
+
+def with_inner_breaks(p, rng):
+    q = list(p)
+    q[0] = list(p[0])
+    where = rng.sample(["meta", "alt", "cat", "meta"], rng.randint(1, 3))
+    if "meta" in where or (not p[3] and not p[6]):
+        for k in rng.sample([0, 1, 2, 4, 5, 6, 7, 8], rng.randint(1, 3)):
+            q[0][k] = T(inner_break_text(rng))
+    if "alt" in where and p[3]:
+        q[3] = [[a, T(inner_break_text(rng)) if rng.random() < 0.6 else n] for a, n in p[3]]
+    if "cat" in where and p[6]:
+        q[6] = [[c, T(inner_break_text(rng)) if rng.random() < 0.6 else n] for c, n in p[6]]
+    if not has_inner_break(q):
+        q[0][1] = T(inner_break_text(rng))
+    return q
 
 
 def decouple(p, rng, how=None):
@@ -984,6 +1050,12 @@ def generate(tier, seed):
     # --- random ---
     for _ in range(700 if quick else 12000):
         insts.append((rand_instance(rng), {}))
+    # values with a splitlines-only boundary inside: single-line for the FILE entry points only
+    n_plain = len(insts)
+    for _ in range(150 if quick else 2500):
+        insts.append((with_inner_breaks(rand_instance(rng), rng), {"inner": 1}))
+    for p in corpus_like()[:3]:
+        insts.append((with_inner_breaks(p, rng), {"inner": 1}))
     # model-written text for check (d)
     mws = oracle.run_parallel([("c08.write", normalise_fname(p)) for p, _ in insts], nproc=8)
     out = []
@@ -996,7 +1068,19 @@ def generate(tier, seed):
             mode |= 2                   # categories_name keyed by str
         if rng.random() < 0.15:
             mode |= 4                   # parse_lines on a list that is poisoned afterwards
+        if tags.get("inner"):
+            mode &= 2                   # file entry points only
+        if mode & 5 == 0:
+            mode |= rng.choice([0, 16, 32])      # parse_file / constructor with path / get_parsed_instance
+        if rng.random() < 0.4:
+            mode |= 64                  # the destination already holds a longer file
         out.append(case("c08.rt", [p, mode], **tags))
+    inner = [p for p, t in insts[n_plain:]]
+    insts = insts[:n_plain]             # the histories below choose their own entry point
+    for n, p in enumerate(inner[: (40 if quick else 600)]):
+        out.append(case("c08.cycle", [p, 64 if n % 2 else 0]))
+        if p[7] and len(p[7]) == len(p[8]):
+            out.append(case("c08.hist", [p, [[0, 3 + n]], [], rng.choice([0, 16, 32]) | 64]))
     for p, mode in storage_order_cases():
         out.append(case("c08.rt", [p, mode], hand=1))
         out.append(case("c08.cycle", [p, mode]))
@@ -1033,7 +1117,7 @@ def generate(tier, seed):
             other = list(other)
             other[3] = [[a, T(rand_name(rng))] for a, _ in p[3]] or other[3]      # same ids, other names
             pre = [1, other]
-        out.append(case("c08.seq", [pre, p, mode]))
+        out.append(case("c08.seq", [pre, p, mode | rng.choice([0, 64])]))
     # --- histories on one object: write -> change -> write ; parse -> write -> parse -> parse ---
     def history(p):
         nb = len(p[8])
@@ -1063,6 +1147,8 @@ def generate(tier, seed):
             mode |= 8                   # recompute_cardinality_param() before the second write
         if rng.random() < 0.2:
             mode |= 2
+        if rng.random() < 0.5:
+            mode |= 64
         out.append(case("c08.hist", [p, muts, add, mode]))
     hand = corpus_like()
     out.append(case("c08.hist", [hand[-2], [[1, 6]], [], 0]))            # the x2 twin overtakes the x7 one
